@@ -13,6 +13,8 @@ val fst : ('a1 * 'a2) -> 'a1
 
 val snd : ('a1 * 'a2) -> 'a2
 
+val length : 'a1 list -> nat
+
 val app : 'a1 list -> 'a1 list -> 'a1 list
 
 type comparison =
@@ -46,11 +48,19 @@ val eqb : bool -> bool -> bool
 
 module Nat :
  sig
+  val pred : nat -> nat
+
   val eqb : nat -> nat -> bool
 
   val leb : nat -> nat -> bool
 
   val ltb : nat -> nat -> bool
+
+  val min : nat -> nat -> nat
+
+  val divmod : nat -> nat -> nat -> nat -> nat * nat
+
+  val div : nat -> nat -> nat
  end
 
 module Pos :
@@ -102,6 +112,8 @@ module Coq_Pos :
 
   val compare : positive -> positive -> comparison
 
+  val eqb : positive -> positive -> bool
+
   val ggcdn : nat -> positive -> positive -> positive * (positive * positive)
 
   val ggcd : positive -> positive -> positive * (positive * positive)
@@ -120,6 +132,8 @@ module N :
   val mul : n -> n -> n
 
   val to_nat : n -> nat
+
+  val of_nat : nat -> n
  end
 
 module Z :
@@ -152,7 +166,11 @@ module Z :
 
   val ltb : z -> z -> bool
 
+  val eqb : z -> z -> bool
+
   val abs : z -> z
+
+  val to_nat : z -> nat
 
   val of_nat : nat -> z
 
@@ -163,6 +181,8 @@ module Z :
   val div_eucl : z -> z -> z * z
 
   val div : z -> z -> z
+
+  val modulo : z -> z -> z
 
   val even : z -> bool
 
@@ -177,14 +197,30 @@ val nth : nat -> 'a1 list -> 'a1 -> 'a1
 
 val map : ('a1 -> 'a2) -> 'a1 list -> 'a2 list
 
+val existsb : ('a1 -> bool) -> 'a1 list -> bool
+
+val forallb : ('a1 -> bool) -> 'a1 list -> bool
+
 val filter : ('a1 -> bool) -> 'a1 list -> 'a1 list
 
 type ascii =
 | Ascii of bool * bool * bool * bool * bool * bool * bool * bool
 
+val zero : ascii
+
+val one : ascii
+
+val shift : bool -> ascii -> ascii
+
 val ascii_dec : ascii -> ascii -> bool
 
 val eqb0 : ascii -> ascii -> bool
+
+val ascii_of_pos : positive -> ascii
+
+val ascii_of_N : n -> ascii
+
+val ascii_of_nat : nat -> ascii
 
 val n_of_digits : bool list -> n
 
@@ -200,7 +236,7 @@ val eqb1 : string -> string -> bool
 
 val append : string -> string -> string
 
-val length : string -> nat
+val length0 : string -> nat
 
 val get : nat -> string -> ascii option
 
@@ -234,10 +270,14 @@ val qred : q -> q
 
 val qabs : q -> q
 
+val qfloor : q -> z
+
 type v =
 | VZ of z
 | VS of string
 | VL of v list
+
+val vB : bool -> v
 
 val vQ : q -> v
 
@@ -265,7 +305,11 @@ val qltb : q -> q -> bool
 
 val qleb : q -> q -> bool
 
+val qeqb : q -> q -> bool
+
 val qsqr : q -> q
+
+val sp : ascii
 
 val nl : ascii
 
@@ -289,6 +333,12 @@ val char_at : nat -> string -> string
 
 val repeat_char : ascii -> nat -> string
 
+val ljust : nat -> string -> string
+
+val rjust : nat -> string -> string
+
+val center : nat -> string -> string
+
 val startswith : string -> string -> bool
 
 val str_nonempty : string -> bool
@@ -308,6 +358,12 @@ val readlines : string -> string list
 val count_sub_aux : nat -> string -> string -> nat
 
 val count_sub : string -> string -> nat
+
+val digits_pos_aux : nat -> z -> string -> string
+
+val digits : z -> string
+
+val str_of_Z : z -> string
 
 val all_digits : string -> bool
 
@@ -340,6 +396,12 @@ val pow10 : nat -> z
 
 val parse_float : string -> q numparse
 
+val pad_left_zeros : nat -> string -> string
+
+val fmt_fixed_body : nat -> q -> string
+
+val fmt_fixed : nat -> nat -> q -> string
+
 val round_dec : nat -> q -> q
 
 val repeat_str : string -> nat -> string
@@ -348,6 +410,18 @@ type blank_default =
 | DConst of q
 | DChainFromSegID
 | DElementGuess
+
+type align =
+| ARight
+| ALeft
+| ACenter
+
+type piece =
+| PLit of string
+| PField of nat * align * nat
+| PFixed of nat * align * nat * nat
+| PAtomName
+| PXyz of nat
 
 type val0 =
 | VInt of z
@@ -473,6 +547,8 @@ val spec_table : string list -> row list res
 
 val vval : val0 -> v
 
+val val_of_V : v -> val0
+
 val vrow : row -> v
 
 val vrows : row list -> v
@@ -480,6 +556,76 @@ val vrows : row list -> v
 val form_of : string -> form
 
 val run_parse : string -> v list -> v option
+
+val format_xyz_src : q -> string res
+
+val format_atomname_src : string -> string -> string res
+
+val export_layout_src : piece list
+
+val justify : align -> nat -> string -> string
+
+val render_plain : val0 -> string res
+
+val num_of : val0 -> q res
+
+val text_of : val0 -> string res
+
+val render_piece : row -> piece -> string res
+
+val render_pieces : row -> piece list -> string res
+
+val line_of_row : row -> string res
+
+val clean : string -> bool
+
+val fits_int : z -> z -> val0 -> bool
+
+val fits_text : nat -> nat -> val0 -> bool
+
+val real_of : val0 -> q option
+
+val fits_real : q -> q -> val0 -> bool
+
+val coord_lo : q
+
+val coord_hi : q
+
+val coord_in_range : val0 -> bool
+
+val fits : row -> bool
+
+val decimal_value : string -> (q * nat) option
+
+val int_digits : q -> nat
+
+val max_fit : q -> nat
+
+val near_power_of_ten : q -> bool
+
+val coord_ok : val0 -> string -> bool
+
+val text_ok : val0 -> string -> bool
+
+val int_ok : val0 -> string -> bool
+
+val real2_ok : val0 -> string -> bool
+
+val line_ok : row -> string -> bool
+
+val val_eqb : val0 -> val0 -> bool
+
+val slack : q -> q
+
+val within : q -> val0 -> val0 -> bool
+
+val coord_tol : val0 -> q
+
+val approx_row : row -> row -> bool
+
+val row_of_V : v -> row
+
+val run_export : string -> v list -> v option
 
 val vresS : string res -> v
 
